@@ -40,14 +40,24 @@ Definition deps_okb (seen : list field) (proc : list string) (f : field) : bool 
     existsb (fun c => String.eqb (f_name c) cfn &&
                       match classify tm allfs c with Some (MkComputed _ gn t' _) => String.eqb gn (f_name f) && String.eqb t' t | _ => false end) seen
     && existsb (String.eqb cfn) proc
+  | Some (MkVarSized _ n) =>
+    existsb (fun c => String.eqb (f_name c) n &&
+                      match classify tm allfs c with Some (MkByteSize _ g) => String.eqb (f_name g) (f_name f) | _ => false end) seen
   | Some _ => true
   | None => false
   end.
 
+Definition fill_memberb (f : field) : bool :=
+  match classify tm allfs f with Some (MkFillPlain _) | Some (MkFillVar _) => true | _ => false end.
+
+Lemma fill_memberb_false f : fill_memberb f = false -> ~ fill_member tm allfs f.
+Proof. unfold fill_memberb, fill_member. destruct (classify tm allfs f) as [[]|]; try discriminate; tauto. Qed.
+
 Fixpoint orderedb (seen : list field) (proc : list string) (fs : list field) : bool :=
   match fs with
   | [] => true
-  | f :: r => deps_okb seen proc f && orderedb (seen ++ [f]) (f_name f :: proc) r
+  | f :: r => deps_okb seen proc f && (negb (fill_memberb f) || match r with [] => true | _ => false end)
+              && orderedb (seen ++ [f]) (f_name f :: proc) r
   end.
 
 Lemma bound_field_in c g : bound_field allfs c = Some g -> In g allfs.
@@ -80,7 +90,7 @@ Proof.
                       match classify tm allfs c with Some (MkCount _ g) => String.eqb (f_name g) (f_name f) | _ => false end) seen = true ->
                     size_member_seen tm allfs seen f n).
   { intros n Hex. apply existsb_exists in Hex as (c & Hc & Hex). apply Bool.andb_true_iff in Hex as [Hn Hg].
-    apply String.eqb_eq in Hn. destruct (classify tm allfs c) as [[| |i g| | | | | | | | |]|] eqn:Hcl; try discriminate.
+    apply String.eqb_eq in Hn. destruct (classify tm allfs c) as [[| |i g| | | | | | | | | | | | |]|] eqn:Hcl; try discriminate.
     apply String.eqb_eq in Hg. exists c, i. repeat split; [exact Hc | exact Hn|].
     pose proof (classify_facts tm allfs c _ Hcl) as F. cbn [kind_facts] in F. destruct F as (_ & _ & _ & _ & Hb & _).
     now rewrite (same_name_same_field f g Hf (bound_field_in c g Hb) Hg) in Hcl. }
@@ -88,25 +98,32 @@ Proof.
   - now apply Hcount.
   - now apply Hcount.
   - apply existsb_exists in H as (c & Hc & Hex). apply Bool.andb_true_iff in Hex as [Hn Hg]. apply String.eqb_eq in Hn.
-    destruct (classify tm allfs c) as [[| | | | | | |i gn t'| | | |]|] eqn:Hcl; try discriminate.
+    destruct (classify tm allfs c) as [[| | | | | | |i gn t'| | | | | | | |]|] eqn:Hcl; try discriminate.
     apply Bool.andb_true_iff in Hg as [Hg Ht]. apply String.eqb_eq in Hg, Ht. subst. now exists c, i.
   - apply Bool.andb_true_iff in H as [H Hp]. split; [|now apply existsb_name_in].
     apply existsb_exists in H as (c & Hc & Hex). apply Bool.andb_true_iff in Hex as [Hn Hg]. apply String.eqb_eq in Hn.
-    destruct (classify tm allfs c) as [[| | | | | | | | |i gn t' d| |]|] eqn:Hcl; try discriminate.
+    destruct (classify tm allfs c) as [[| | | | | | | | |i gn t' d| | | | | |]|] eqn:Hcl; try discriminate.
     apply Bool.andb_true_iff in Hg as [Hg Ht]. apply String.eqb_eq in Hg, Ht. subst. now exists c, i, d.
   - apply Bool.andb_true_iff in H as [H Hp]. split; [|now apply existsb_name_in].
     apply existsb_exists in H as (c & Hc & Hex). apply Bool.andb_true_iff in Hex as [Hn Hg]. apply String.eqb_eq in Hn.
-    destruct (classify tm allfs c) as [[| | |i g y'| | | | | | | |]|] eqn:Hcl; try discriminate.
+    destruct (classify tm allfs c) as [[| | |i g y'| | | | | | | | | | | |]|] eqn:Hcl; try discriminate.
     apply Bool.andb_true_iff in Hg as [Hg Hy]. apply String.eqb_eq in Hg. assert (y' = y) by lia. subst y'.
     exists c, i. repeat split; [exact Hc | exact Hn|].
+    pose proof (classify_facts tm allfs c _ Hcl) as F. cbn [kind_facts] in F. destruct F as (_ & _ & _ & _ & Hb & _).
+    now rewrite (same_name_same_field f g Hf (bound_field_in c g Hb) Hg) in Hcl.
+  - apply existsb_exists in H as (c & Hc & Hex). apply Bool.andb_true_iff in Hex as [Hn Hg]. apply String.eqb_eq in Hn.
+    destruct (classify tm allfs c) as [[| | | | | | | | | | | |i g| | |]|] eqn:Hcl; try discriminate.
+    apply String.eqb_eq in Hg. exists c, i. repeat split; [exact Hc | exact Hn|].
     pose proof (classify_facts tm allfs c _ Hcl) as F. cbn [kind_facts] in F. destruct F as (_ & _ & _ & _ & Hb & _).
     now rewrite (same_name_same_field f g Hf (bound_field_in c g Hb) Hg) in Hcl.
 Qed.
 
 Lemma orderedb_sound : forall fs seen proc, (forall f, In f fs -> In f allfs) -> orderedb seen proc fs = true -> ordered tm allfs seen proc fs.
 Proof.
-  induction fs as [|f r IH]; intros seen proc Hin H; [constructor|]. cbn [orderedb] in H. apply Bool.andb_true_iff in H as [Hf Hr].
-  constructor; [apply deps_okb_sound; [apply Hin; now left | exact Hf] | apply IH; [intros g Hg; apply Hin; now right | exact Hr]].
+  induction fs as [|f r IH]; intros seen proc Hin H; [constructor|]. cbn [orderedb] in H. apply Bool.andb_true_iff in H as [H Hr]. apply Bool.andb_true_iff in H as [Hf Hlast].
+  constructor; [apply deps_okb_sound; [apply Hin; now left | exact Hf] | | apply IH; [intros g Hg; apply Hin; now right | exact Hr]].
+  intros Hfm. apply Bool.orb_true_iff in Hlast as [Hl|Hl]; [|destruct r; [reflexivity|discriminate]].
+  exfalso. apply Bool.negb_true_iff in Hl. exact (fill_memberb_false f Hl Hfm).
 Qed.
 
 Definition pos_memberb (f : field) : bool :=
@@ -134,7 +151,8 @@ Definition flat_structb (s : struct) : bool :=
   && nodup_names (map f_name allfs)
   && forallb (fun f => negb (String.eqb (f_name f) "size")) allfs
   && orderedb allfs [] [] allfs
-  && existsb (pos_memberb allfs) allfs.
+  && existsb (pos_memberb allfs) allfs
+  && forallb (fun f => negb (fill_memberb allfs f)) allfs.
 
 (* the lookup must return the struct itself (names are unique in a validated schema) *)
 Definition self_lookup (s : struct) : Prop := lookup tm (s_name s) = Some (DStruct s).
@@ -149,11 +167,13 @@ Proof.
   - unfold struct_size_attr_none in *. destruct (struct_size_attr s); [discriminate|reflexivity].
   - destruct (s_disp s); congruence.
   - exact Hnd.
-  - intros f Hf Hn. match goal with Hs : forallb _ _ = true |- _ => rewrite forallb_forall in Hs; specialize (Hs f Hf) end.
+  - intros f Hf Hn. match goal with Hs : forallb (fun f => negb (String.eqb _ _)) _ = true |- _ => rewrite forallb_forall in Hs; specialize (Hs f Hf) end.
     rewrite Hn in *. discriminate.
   - apply orderedb_sound; [exact Hnd | auto | assumption].
   - match goal with Hx : existsb _ _ = true |- _ => apply existsb_exists in Hx as (f & Hf & Hex) end.
     exists f. split; [exact Hf | now apply pos_memberb_sound].
+  - intros f Hf. match goal with Hs : forallb (fun f => negb (fill_memberb _ f)) _ = true |- _ => rewrite forallb_forall in Hs; specialize (Hs f Hf) end.
+    apply fill_memberb_false. now apply Bool.negb_true_iff.
 Qed.
 
 (* decidable equality of members (for "the child's members are the parent's members followed by its own") *)
@@ -183,6 +203,7 @@ Definition based_structb (s : struct) : bool :=
         && String.eqb (f_name f0) "size" && (0 <? it_size i) && it_unsigned i
         && negb (is_reserved f0) && is_settable allfs f0
         && orderedb allfs [] ["size"] hrest && orderedb allfs hrest [] own
+        && forallb (fun f => negb (fill_memberb allfs f)) hrest
       | _, _ => false
       end
     | [] => false
@@ -210,6 +231,8 @@ Proof.
   - match goal with Hx : negb (is_reserved f0) = true |- _ => now apply Bool.negb_true_iff in Hx end.
   - apply orderedb_sound; [exact Hnd_all | intros f Hf; rewrite Hall; right; apply in_or_app; now left | assumption].
   - apply orderedb_sound; [exact Hnd_all | intros f Hf; rewrite Hall; right; apply in_or_app; now right | assumption].
+  - intros f Hf. match goal with Hs : forallb (fun f => negb (fill_memberb _ f)) _ = true |- _ => rewrite forallb_forall in Hs; specialize (Hs f Hf) end.
+    apply fill_memberb_false. now apply Bool.negb_true_iff.
 Qed.
 
 (* parent without @size member (NEM) *)
@@ -226,6 +249,7 @@ Definition based_nosizeb (s : struct) : bool :=
     && forallb (fun f => negb (String.eqb (f_name f) "size")) allfs
     && orderedb allfs [] [] hfs && orderedb allfs hfs [] own
     && existsb (pos_memberb allfs) allfs
+    && forallb (fun f => negb (fill_memberb allfs f)) allfs
   | None => false
   end.
 
@@ -241,12 +265,14 @@ Proof.
   - destruct (s_disp s); congruence.
   - unfold struct_size_attr_none in *. destruct (struct_size_attr a); [discriminate|reflexivity].
   - unfold struct_size_attr_none in *. destruct (struct_size_attr s); [discriminate|reflexivity].
-  - intros f Hf Hn. match goal with Hs : forallb _ _ = true |- _ => rewrite forallb_forall in Hs; specialize (Hs f Hf) end.
+  - intros f Hf Hn. match goal with Hs : forallb (fun f => negb (String.eqb _ _)) _ = true |- _ => rewrite forallb_forall in Hs; specialize (Hs f Hf) end.
     rewrite Hn in *. discriminate.
   - apply orderedb_sound; [exact Hnd_all | intros f Hf; rewrite Hall; apply in_or_app; now left | assumption].
   - apply orderedb_sound; [exact Hnd_all | intros f Hf; rewrite Hall; apply in_or_app; now right | assumption].
   - match goal with Hx : existsb _ _ = true |- _ => apply existsb_exists in Hx as (f & Hf & Hex) end.
     exists f. split; [exact Hf | now apply pos_memberb_sound].
+  - intros f Hf. match goal with Hs : forallb (fun f => negb (fill_memberb _ f)) _ = true |- _ => rewrite forallb_forall in Hs; specialize (Hs f Hf) end.
+    apply fill_memberb_false. now apply Bool.negb_true_iff.
 Qed.
 
 Definition struct_okb (s : struct) : bool := flat_structb s || based_structb s || based_nosizeb s.
@@ -271,7 +297,8 @@ Definition member_typedb (allfs : list field) (admb : string -> value -> bool) (
   | Some (MkCountCond _ g _) => match vget self (f_name g) with Some (VBytes _) | Some VNull => true | _ => false end
   | Some (MkNamed t) | Some (MkNamedSized t _) => match vget self (f_name f) with Some VNull => false | Some v => admb t v | None => false end
   | Some (MkBytes _) => match vget self (f_name f) with Some (VBytes _) => true | _ => false end
-  | Some (MkArray a _) =>
+  | Some (MkByteSize _ _) => true
+  | Some (MkArray a _) | Some (MkVarSized a _) | Some (MkFillPlain a) | Some (MkFillVar a) =>
     match vget self (f_name f), elem_name a with
     | Some (VArr l), Some et => (Z.of_nat (length l) <=? 65536) && forallb (admb et) l
     | _, _ => false
@@ -289,7 +316,21 @@ Fixpoint str_list_eqb (a b : list string) : bool :=
 Lemma str_list_eqb_eq a : forall b, str_list_eqb a b = true -> a = b.
 Proof. induction a as [|x a IH]; intros [|y b] H; cbn in H; try discriminate; [reflexivity|]. apply Bool.andb_true_iff in H as [H1 H2]. apply String.eqb_eq in H1. f_equal; [exact H1 | now apply IH]. Qed.
 
-Fixpoint admb (n : nat) (t : string) (v : value) : bool :=
+Definition struct_eq_dec : forall a b : struct, {a = b} + {a <> b}.
+Proof. repeat decide equality. Defined.
+
+(* static conditions for decoding the child s through the factory of the abstract struct a (named t) *)
+Definition factory_okb (t : string) (a s : struct) : bool :=
+  match s_disp a with SdAbstract => true | _ => false end
+  && match s_factory_type s with Some t' => String.eqb t' t | None => false end
+  && forallb (fun f => is_none (f_cond f) && fields_eqb (size_fields_of (struct_fields_nc a) f) (size_fields_of (struct_fields_nc s) f)) (struct_fields_nc a)
+  && negb (is_none (find_attr (s_attrs a) "discriminator"))
+  && forallb (fun n => negb (String.eqb n "size") &&
+                       existsb (fun f => String.eqb (f_name f) n &&
+                                         match classify tm (struct_fields_nc s) f with Some (MkInt _) | Some (MkNamed _) => true | _ => false end)
+                               (struct_fields_nc a)) (disc_names a).
+
+Fixpoint admfb (n : nat) (t : string) (v : value) : bool :=
   match v with
   | VInt z =>
     match lookup tm t with
@@ -306,17 +347,28 @@ Fixpoint admb (n : nat) (t : string) (v : value) : bool :=
     match n with
     | O => false
     | S n' =>
-      String.eqb t cls &&
       match lookup_struct tm cls with
       | Some s =>
         struct_okb s
         && str_list_eqb (map fst vs) (map f_name (settable_fields s))
-        && forallb (member_typedb (struct_fields_nc s) (admb n') v) (typed_members tm s)
+        && forallb (member_typedb (struct_fields_nc s) (admfb n') v) (typed_members tm s)
+        && (String.eqb t cls ||
+            match lookup_struct tm t with
+            | Some a =>
+              factory_okb t a s &&
+              match factory_pick tm t (disc_names a) (map (fun n => vget v n) (disc_names a)) with
+              | Some (DStruct c) => if struct_eq_dec c s then true else false
+              | _ => false
+              end
+            | None => false
+            end)
       | None => false
       end
     end
   | _ => false
   end.
+
+Definition admb (n : nat) (t : string) (v : value) : bool := admfb n t v && negb (is_abs tm t).
 
 Lemma lookup_struct_self cls s : lookup_struct tm cls = Some s -> s_name s = cls /\ self_lookup s.
 Proof.
@@ -351,21 +403,66 @@ Proof.
   - destruct (vget self gn) as [v|]; [|discriminate]. exists v. split; [reflexivity | now apply (opt_struct_ofb_sound ab)].
   - destruct (vget self (f_name f)) as [v|]; [|discriminate]. exists v. split; [reflexivity | now apply (opt_struct_ofb_sound ab)].
   - destruct (vget self (f_name f)) as [[|b| | |]|]; try discriminate; [right; exists b; split; [reflexivity|lia] | now left].
+  - exact I.
+  - destruct (vget self (f_name f)) as [[| |l| |]|]; try discriminate. destruct (elem_name a) as [et|]; [|discriminate].
+    apply Bool.andb_true_iff in H as [Hlen Hall].
+    exists l. split; [reflexivity|]. split.
+    + unfold array_fuel. apply Nat2Z.inj_le. rewrite Z2Nat.id by lia. lia.
+    + rewrite forallb_forall in Hall. apply Forall_forall. intros x Hx. apply Hab, Hall, Hx.
+  - destruct (vget self (f_name f)) as [[| |l| |]|]; try discriminate. destruct (elem_name a) as [et|]; [|discriminate].
+    apply Bool.andb_true_iff in H as [Hlen Hall].
+    exists l. split; [reflexivity|]. split.
+    + unfold array_fuel. apply Nat2Z.inj_le. rewrite Z2Nat.id by lia. lia.
+    + rewrite forallb_forall in Hall. apply Forall_forall. intros x Hx. apply Hab, Hall, Hx.
+  - destruct (vget self (f_name f)) as [[| |l| |]|]; try discriminate. destruct (elem_name a) as [et|]; [|discriminate].
+    apply Bool.andb_true_iff in H as [Hlen Hall].
+    exists l. split; [reflexivity|]. split.
+    + unfold array_fuel. apply Nat2Z.inj_le. rewrite Z2Nat.id by lia. lia.
+    + rewrite forallb_forall in Hall. apply Forall_forall. intros x Hx. apply Hab, Hall, Hx.
+Qed.
+
+Lemma factory_okb_sound t a s : lookup_struct tm t = Some a -> factory_okb t a s = true -> factory_ok tm t a s.
+Proof.
+  intros Hpar H. unfold factory_okb in H.
+  apply Bool.andb_true_iff in H as [H Hn]. apply Bool.andb_true_iff in H as [H Hd]. apply Bool.andb_true_iff in H as [H Hh].
+  apply Bool.andb_true_iff in H as [Ha Hft].
+  constructor.
+  - exact Hpar.
+  - destruct (s_disp a); try discriminate; reflexivity.
+  - destruct (s_factory_type s) as [t'|]; [|discriminate]. f_equal. now apply String.eqb_eq.
+  - intros f Hf. rewrite forallb_forall in Hh. specialize (Hh f Hf).
+    apply Bool.andb_true_iff in Hh as [Hc He]. split; [now apply is_none_eq | now apply fields_eqb_eq].
+  - destruct (find_attr (s_attrs a) "discriminator"); [discriminate | discriminate].
+  - intros n Hin. rewrite forallb_forall in Hn. specialize (Hn n Hin).
+    apply Bool.andb_true_iff in Hn as [Hns Hex]. split; [apply String.eqb_neq; now apply Bool.negb_true_iff|].
+    apply existsb_exists in Hex as (f & Hf & Hfk). apply Bool.andb_true_iff in Hfk as [Hfn Hk]. apply String.eqb_eq in Hfn.
+    exists f. repeat split; try assumption.
+    destruct (classify tm (struct_fields_nc s) f) as [[]|]; try discriminate; [left|right]; eauto.
+Qed.
+
+Lemma admfb_sound : forall n t v, admfb n t v = true -> admf tm n t v.
+Proof.
+  induction n as [|n IH]; intros t v H; destruct v as [z|b|l|cls vs|]; cbn [admfb] in H; try discriminate; cbn [admf].
+  - destruct (lookup tm t) as [[? [i|m] ?|? bi vs at_ ?|?]|]; try discriminate; apply Bool.andb_true_iff in H as [H1 H2]; split; try lia; assumption.
+  - destruct (lookup tm t) as [[? [i|m] ?|? bi vs at_ ?|?]|]; try discriminate; apply Bool.andb_true_iff in H as [H1 H2]; split; lia.
+  - destruct (lookup tm t) as [[? [i|m] ?|? bi vs at_ ?|?]|]; try discriminate; apply Bool.andb_true_iff in H as [H1 H2]; split; try lia; assumption.
+  - destruct (lookup tm t) as [[? [i|m] ?|? bi vs at_ ?|?]|]; try discriminate; apply Bool.andb_true_iff in H as [H1 H2]; split; lia.
+  - destruct (lookup_struct tm cls) as [s|] eqn:Hls; [|discriminate].
+    destruct (lookup_struct_self cls s Hls) as [Hname Hself].
+    apply Bool.andb_true_iff in H as [H Hstat]. apply Bool.andb_true_iff in H as [H Hm]. apply Bool.andb_true_iff in H as [Hflat Hvs].
+    split; [exact Hname|]. split; [exact (struct_okb_sound s Hself Hflat)|]. split; [now apply str_list_eqb_eq|].
+    split; [intros f Hf; rewrite forallb_forall in Hm; exact (member_typedb_sound _ (admfb n) (admf tm n) _ f (IH) (Hm f Hf))|].
+    apply Bool.orb_true_iff in Hstat as [Ht|Hf]; [left; now apply String.eqb_eq|right].
+    destruct (lookup_struct tm t) as [a|] eqn:Hpar; [|discriminate]. apply Bool.andb_true_iff in Hf as [Hfo Hpick].
+    exists a. split; [now apply factory_okb_sound|].
+    fold (disc_names a) in Hpick |- *.
+    destruct (factory_pick tm t (disc_names a) (map (fun n0 => vget (VStruct cls vs) n0) (disc_names a))) as [[| |c]|] eqn:Hp; try discriminate.
+    destruct (struct_eq_dec c s) as [->|]; [reflexivity|discriminate].
 Qed.
 
 Lemma admb_sound : forall n t v, admb n t v = true -> adm tm n t v.
 Proof.
-  induction n as [|n IH]; intros t v H; destruct v as [z|b|l|cls vs|]; cbn [admb] in H; try discriminate; cbn [adm].
-  - destruct (lookup tm t) as [[? [i|m] ?|? bi vs at_ ?|?]|]; try discriminate; apply Bool.andb_true_iff in H as [H1 H2]; split; try lia; assumption.
-  - destruct (lookup tm t) as [[? [i|m] ?|? bi vs at_ ?|?]|]; try discriminate; apply Bool.andb_true_iff in H as [H1 H2]; split; lia.
-  - destruct (lookup tm t) as [[? [i|m] ?|? bi vs at_ ?|?]|]; try discriminate; apply Bool.andb_true_iff in H as [H1 H2]; split; try lia; assumption.
-  - destruct (lookup tm t) as [[? [i|m] ?|? bi vs at_ ?|?]|]; try discriminate; apply Bool.andb_true_iff in H as [H1 H2]; split; lia.
-  - apply Bool.andb_true_iff in H as [Ht H]. apply String.eqb_eq in Ht. split; [exact Ht|].
-    destruct (lookup_struct tm cls) as [s|] eqn:Hls; [|discriminate].
-    destruct (lookup_struct_self cls s Hls) as [Hname Hself].
-    apply Bool.andb_true_iff in H as [H Hm]. apply Bool.andb_true_iff in H as [Hflat Hvs].
-    split; [exact Hname|]. split; [exact (struct_okb_sound s Hself Hflat)|]. split; [now apply str_list_eqb_eq|].
-    intros f Hf. rewrite forallb_forall in Hm. exact (member_typedb_sound _ (admb n) (adm tm n) _ f (IH) (Hm f Hf)).
+  intros n t v H. unfold admb in H. apply Bool.andb_true_iff in H as [H Ha]. split; [now apply admfb_sound | now apply Bool.negb_true_iff].
 Qed.
 
 End Decide.
